@@ -705,20 +705,22 @@ func (g *GoBackNConn) receivePacketsForever() error { // nolint:gocyclo
 			// number that the receiver was expecting.
 			shouldResend, bumped := g.sendQueue.processNACK(m.Seq)
 
-			// If we don't need to resend the queue after processing
-			// the NACK, we can continue without sending the resend
-			// signal.
-			if !shouldResend {
-				continue
-			}
-
 			// If the base was bumped, then the queue is now smaller
-			// and so we can send a signal to indicate this.
+			// and so we can send a signal to indicate this. That
+			// is also the case for a NACK that empties the queue
+			// without asking for a resend.
 			if bumped {
 				select {
 				case g.receivedACKSignal <- struct{}{}:
 				default:
 				}
+			}
+
+			// If we don't need to resend the queue after processing
+			// the NACK, we can continue without sending the resend
+			// signal.
+			if !shouldResend {
+				continue
 			}
 
 			g.log.Tracef("Sending a resend signal")
